@@ -8,6 +8,7 @@ from fractions import Fraction
 ZOOMS = [Fraction(1, 8), Fraction(1, 4), Fraction(1, 2), Fraction(3, 4), Fraction(1), Fraction(5, 4), Fraction(3, 2),
          Fraction(2), Fraction(3), Fraction(4), Fraction(8), Fraction(25, 8)]
 BLEEDS = ['0', '1px', '2.5px', '4px', '8px', '12.25px', '13.5px', '16px', '20px', '33.75px']
+UNICODE_NAMES = ['\u00e9', 'a\u00e9', 'n1\u00f1', '\u03a91', '\uff21', '\U0001f600', 'zz\U0001f600', 'B', '~', 'n', 'n10']
 EXTERNAL = ['http://x.org/', 'https://example.net/a/b?c=d', 'mailto:u@example.org']
 
 
@@ -36,6 +37,9 @@ def gen_doc(rng, min_pages=1, max_blocks=9, big=False):
                  'h4{bookmark-level:5;bookmark-label:content(text)}a{color:blue}')
     n_blocks = rng.randrange(2, max_blocks + 1)
     ids = [f'a{i}' for i in range(n_blocks)]
+    if rng.random() < 0.4:
+        for k in rng.sample(range(n_blocks), rng.randrange(1, n_blocks + 1)):
+            ids[k] = rng.choice(['\u00e9', 'a\u00e9', '\uff21', '\U0001f600', 'b', 'Z']) + ids[k][1:] + rng.choice(['', '\u00f1'])
     blocks = []
     pages_wanted = rng.randrange(min_pages, 7)
     breaks = set(rng.sample(range(1, n_blocks), min(pages_wanted - 1, n_blocks - 1))) if n_blocks > 1 else set()
@@ -129,6 +133,11 @@ def gen_synthetic_pages(rng, adversarial, n_pages=None, levels_ok=True):
     """Abstract pages: list of (width, height, bleed4, links, anchors, bookmarks) with Fractions."""
     n_pages = rng.randrange(0 if adversarial else 1, 6) if n_pages is None else n_pages
     names = [f'n{i}' for i in range(rng.randrange(1, 7))]
+    if rng.random() < 0.4:
+        # the /Dests name tree is sorted by the bytes of the keys as written: ASCII as is, anything else as
+        # BOM + UTF-16-BE (after every ASCII key; astral characters, as surrogates, before U+E000..U+FFFF)
+        names += rng.sample(UNICODE_NAMES, rng.randrange(1, 5))
+        rng.shuffle(names)
     pages = []
     for _ in range(n_pages):
         width, height = dyadic(rng, adversarial, 1), dyadic(rng, adversarial, 1)
